@@ -244,6 +244,8 @@ type Interp struct {
 	// ctl: pending "continue"/"break" inside a concretely unrolled loop
 	ctl      string
 	unrolled int
+	// spread: the call being inlined passes its last argument with `...`
+	spread bool
 	// Loops currently open (outermost first), for events recorded inside loops.
 	loops []LoopCtx
 	curPos    token.Pos
@@ -674,6 +676,8 @@ func (it *Interp) stmt(s ast.Stmt) {
 		it.undecided(s.Pos(), "statement %T", s)
 	case *ast.LabeledStmt:
 		it.stmt(x.Stmt)
+	case *ast.TypeSwitchStmt:
+		it.typeSwitch(x)
 	case *ast.EmptyStmt:
 	default:
 		it.undecided(s.Pos(), "statement %T", s)
@@ -997,7 +1001,18 @@ func (it *Interp) eval(e ast.Expr) Value {
 		}
 		it.undecided(e.Pos(), "selector %s", types.ExprString(e))
 	case *ast.TypeAssertExpr:
-		return it.eval(x.X)
+		v := it.eval(x.X)
+		if tv, ok := it.info.Types[e]; ok {
+			if tup, isTuple := tv.Type.(*types.Tuple); isTuple && tup.Len() == 2 {
+				// comma-ok form: decided from the dynamic type of the value
+				if x.Type != nil {
+					if want, ok := it.info.Types[x.Type]; ok {
+						return Tuple{v, &BoolVal{Known: true, V: it.hasDynType(v, want.Type)}}
+					}
+				}
+			}
+		}
+		return v
 	}
 	it.undecided(e.Pos(), "expression %s", types.ExprString(e))
 	return nil
@@ -1221,6 +1236,31 @@ func (it *Interp) call(call *ast.CallExpr) Value {
 						}
 					}
 					return sym.Fn("f"+bi.Name(), a, b)
+				}
+			case "append":
+				// append on lists of objects (option lists); numeric slices are not grown by the analysed code
+				if len(call.Args) >= 1 {
+					base := it.eval(call.Args[0])
+					var l *ListVal
+					switch bv := base.(type) {
+					case *ListVal:
+						l = &ListVal{Elems: append([]Value{}, bv.Elems...)}
+					case NilVal:
+						l = &ListVal{}
+					}
+					if l != nil {
+						for i, a := range call.Args[1:] {
+							v := it.eval(a)
+							if call.Ellipsis != token.NoPos && i == len(call.Args)-2 {
+								if sp, ok := v.(*ListVal); ok {
+									l.Elems = append(l.Elems, sp.Elems...)
+									continue
+								}
+							}
+							l.Elems = append(l.Elems, v)
+						}
+						return l
+					}
 				}
 			case "len":
 				v := it.eval(call.Args[0])
